@@ -1012,8 +1012,8 @@ THEOREMS["SaisWidth"] = ["RbV.Thm.C03.sais_width_arms_fit", "RbV.Thm.C03.sais_re
 
 # gensa: the suffix-array construction (C03) — dialect module tools/rs2lean_gensa.py; Thm/C03.lean imports RbV.Thm.GenSrcLcp (…)
 TRANSLATOR_MODULES.append("rs2lean_gensa")
-GEN_SRC.update({n: gen_src(n) for n in ("SrcLcp", "SrcTransform", "SrcPosTypes")})
-EXTRACTORS["C03"] = EXTRACTORS["C03"] + [GEN_SRC["SrcAlphabet"]] + [GEN_SRC[n] for n in ("SrcLcp", "SrcTransform", "SrcPosTypes")]
+GEN_SRC.update({n: gen_src(n) for n in ("SrcLcp", "SrcTransform", "SrcPosTypes", "SrcSaisBuckets")})
+EXTRACTORS["C03"] = EXTRACTORS["C03"] + [GEN_SRC["SrcAlphabet"]] + [GEN_SRC[n] for n in ("SrcLcp", "SrcTransform", "SrcPosTypes", "SrcSaisBuckets")]
 SOFT_TRANSFORM = soft_modules(["RbV.Thm.GenSrcTransformModel"], "the mirror model `Sais.transformText` no longer gives the numbers of "
                                 "`transform_text` (the property-level theorem `transform_text_source_eq_model`, `Transform.Ok`, is "
                                 "checked separately)")
